@@ -1101,13 +1101,13 @@ func (e *exec) epilogue() {
 }
 
 // Execute runs a script inside a bubble.
-func Execute(t *testing.T, s Script, leakScan bool) Trace {
+func execute1(t *testing.T, s Script, leakScan bool, budget time.Duration) Trace {
 	tr := Trace{GStopIssuedAt: -1, StopIssuedAt: -1, MaxPerPrio: map[uint]int{}}
 	var before map[string]string
 	if leakScan {
 		before = bubble.LibGoroutines()
 	}
-	res := bubble.Run(t, func() {
+	res := bubble.RunBudget(t, budget, func() {
 		e := &exec{s: s, tr: &tr, epoch: time.Now(), quit: make(chan struct{}), inputs: map[uint]*input{}, gens: map[uint]int{},
 			calls: map[int]*call{}, removedSet: map[uint]bool{}, everSet: map[uint]bool{}, configured: map[uint]bool{}, leakScan: leakScan}
 		unbuf := 0
@@ -1197,9 +1197,24 @@ func Execute(t *testing.T, s Script, leakScan bool) Trace {
 		e.epilogue()
 		e.pollErr()
 	})
+	if res.Spin {
+		// the abandoned bubble may still be writing to tr: report nothing but the verdict
+		return Trace{Spin: true, Deadlock: res.Deadlock, GStopIssuedAt: -1, StopIssuedAt: -1, MaxPerPrio: map[uint]int{}}
+	}
 	tr.Deadlock = res.Deadlock
 	if res.Panic != "" {
 		tr.Deadlock = "harness panic: " + res.Panic
+	}
+	return tr
+}
+
+// Execute runs the script inside a bubble. A case that exceeds the real-time budget (a
+// spinning goroutine) is executed once more with a larger budget before it is reported.
+func Execute(t *testing.T, s Script, leakScan bool) Trace {
+	b := bubble.CaseBudget()
+	tr := execute1(t, s, leakScan, b)
+	if tr.Spin && b > 0 {
+		tr = execute1(t, s, leakScan, 3*b)
 	}
 	return tr
 }
